@@ -48,6 +48,19 @@ CLAIMED["C14"] = (
     "DESIGN.md §5 C14",
 )
 
+CLAIMED["C04"] = (
+    "Kernel-checked theorems for ALL strings and all prior bodies: frame/cell/shape-level read-back = character-wise map "
+    "(LF, VT, TAB kept; other C0 -> _xHHHH_), paragraph-level read-back = same with LF,VT -> VT and paragraph properties "
+    "retained, run-level = escape only (identity on control-free strings), exactly count(LF)+1 paragraphs per frame "
+    "assignment; by induction on the string through the split/escape/join pipeline.  Tied to the code by exact "
+    "correspondence of read-back and a:p/a:r/a:br skeleton on seeded strings x four levels x seeded prior states, and "
+    "by 1..3 save/re-open cycles per deck.",
+    "Trusted: lxml text-node storage; survival across re-open (libxml2 blank-text handling) is runtime and only sampled; "
+    "the a:br count theorem is not proved (checked by oracle + correspondence).",
+    "Lean 4 proof (induction on strings) + seeded correspondence incl. save/re-open",
+    "DESIGN.md §5 C04",
+)
+
 NOT_YET = {}
 
 
